@@ -132,7 +132,7 @@ def run(ctx):
     L._reported.clear()
     from common import CORPUS
     corpus = []
-    for p in sorted((CORPUS / "C02").glob("*.json")):
+    for p in sorted((CORPUS / "C02").glob("decode_*.json")):
         try:
             d = json.loads(p.read_text())
         except Exception:  # noqa
